@@ -156,7 +156,19 @@ def run_case(acc, seed, idx):
         before = w.snapshot()
         qual = qualifying(w, manual, p['src'], before.refs)
         strict = [m for m in qual if 'dont_care' not in m]
+        fault = None
+        if rng.random() < 0.25:
+            # one git command of the evaluation that executes the command
+            # fails (refresh of the mirror cache, fetch of the remote, ...)
+            fault = rng.choice(['fetch --prune', 'remote update',
+                                'ls-remote'])
+            w.shim.set(fail_match=fault)
         rec = w.run('pr', p['id'])
+        if fault:
+            w.shim.clear()
+            acc.count('c15_resets_with_a_failing_git_command')
+            acc.seen('c15_fault_outcomes', '%s->%s' % (fault,
+                                                       rec['status']))
         acc.evals += 1
         acc.count('c15_resets_evaluated')
         acc.count('jobs')
